@@ -272,6 +272,9 @@ func cmdCliCheck(args []string) {
 		// check mode on the same script
 		if i%2 == 0 {
 			p := filepath.Join(dir, "check.num")
+			if r.Intn(3) == 0 { // leading blank lines / indentation shift every position
+				c.Text = pick(r, []string{"\n\n", "   ", "\n  \t", "\r\n"}) + c.Text
+			}
 			os.WriteFile(p, []byte(c.Text), 0o644)
 			var res analysis.CheckResult
 			ok := true
